@@ -89,6 +89,7 @@ func init() {
 	}
 	Inputs["veh3"] = feed(1700000000, vp("v2", "", "", "t2"), vp("V1", "", "", ""), vp("v3", "", "", "t3"), vp("", "l2", "", ""),
 		vp("", "L1", "", "t4"), vp("", "l3", "", ""), vp("", "", "p2", ""), vp("", "", "P1", ""), vp("v2", "lbl", "", ""),
+		vp("", "a", "z", ""), vp("", "b", "y", ""), vp("", "c", "x", ""), // label order and plate order disagree
 		&gtfsrt.FeedEntity{Id: sp("noid"), Vehicle: &gtfsrt.VehiclePosition{StopId: sp("S9"), Trip: &gtfsrt.TripDescriptor{TripId: sp("t9")}}})
 	tuv := func(trip, veh string) *gtfsrt.FeedEntity {
 		return &gtfsrt.FeedEntity{Id: sp("tu-" + trip + veh), TripUpdate: &gtfsrt.TripUpdate{Trip: &gtfsrt.TripDescriptor{TripId: sp(trip)}, Vehicle: &gtfsrt.VehicleDescriptor{Id: sp(veh)},
@@ -104,7 +105,7 @@ func init() {
 		}
 		return &gtfsrt.EntitySelector{Trip: td}
 	}
-	Inputs["fallback3"] = feed(1700000000, alert("a1", rt("r3", -1), rt("R1", 0), rt("r2", 1), rt("M", 1), rt("M", 0), rt("q", -1)),
+	Inputs["fallback3"] = feed(1700000000, alert("a1", rt("r3", -1), rt("R1", 0), rt("r2", 1), rt("M", 1), rt("M", 0), rt("q", -1), rt("r3", 1), rt("q", 0)), // a route first without, then with a direction
 		alert("a2", rt("z", 1), rt("y", 0), rt("x", -1), &gtfsrt.EntitySelector{RouteId: sp("y")}))
 	Inputs["dates"] = feed(1710054000,
 		&gtfsrt.FeedEntity{Id: sp("1"), TripUpdate: &gtfsrt.TripUpdate{Trip: &gtfsrt.TripDescriptor{TripId: sp("t1"), StartDate: sp("20240310"), StartTime: sp("25:30:00")},
@@ -146,6 +147,15 @@ func init() {
 		"trips.txt":      "route_id,service_id,trip_id\nq,d2,k1\nq,d1,k2\n",
 		"stop_times.txt": "trip_id,stop_id,stop_sequence,arrival_time,departure_time\nk1,c1,1,1:00:00,\nk2,c2,1,,2:00:00\nk1,c2,2,1:10:00,1:11:00\n",
 	}
+	// a parent_station cycle (one link of it must be dropped: always the same one) under a station with accessibility information
+	StaticFiles["static-cycle"] = map[string]string{
+		"agency.txt":     "agency_name,agency_url,agency_timezone\nOnly,http://o,UTC\n",
+		"routes.txt":     "route_id,route_type\nq,0\n",
+		"stops.txt":      "stop_id,wheelchair_boarding,parent_station,location_type\nA,1,C,1\nB,,A,1\nC,2,B,1\nD,,C,\nE,,A,\nF,,B,\n",
+		"calendar.txt":   cal + "d1,1,0,0,0,0,0,0,20240101,20240201\n",
+		"trips.txt":      "route_id,service_id,trip_id\nq,d1,k1\n",
+		"stop_times.txt": "trip_id,stop_id,stop_sequence,arrival_time,departure_time\nk1,D,1,1:00:00,1:00:00\n",
+	}
 	// agency.txt and other files lacking several required columns (file-level warnings / empty tables)
 	StaticFiles["static-missingcols"] = map[string]string{
 		"agency.txt":     "agency_id,agency_lang\na,en\n",
@@ -174,6 +184,20 @@ var nyZone = func() *time.Location {
 	}
 	return l
 }()
+
+// ClockInput is a message without header timestamp holding an unassigned NYCT trip whose first stop time lies `ahead`
+// from now: the same bytes must parse the same before and after that instant (nothing may consult the wall clock).
+func ClockInput(ahead time.Duration) []byte {
+	td := nyctTD("064650_M..S", false, "")
+	t := time.Now().Add(ahead).Unix()
+	m := &gtfsrt.FeedMessage{Header: &gtfsrt.FeedHeader{GtfsRealtimeVersion: sp("2.0")}, Entity: []*gtfsrt.FeedEntity{
+		{Id: sp("1"), TripUpdate: &gtfsrt.TripUpdate{Trip: td, StopTimeUpdate: []*gtfsrt.TripUpdate_StopTimeUpdate{{StopId: sp("M11N"), Departure: &gtfsrt.TripUpdate_StopTimeEvent{Time: &t}}}}}}}
+	b, err := proto.Marshal(m)
+	if err != nil {
+		panic(err)
+	}
+	return b
+}
 
 // NewObj creates the object of the given kind; calling it twice gives equivalent, independent objects.
 func NewObj(kind string) *Obj {
